@@ -6,6 +6,7 @@ from typing import (
     Container,
     Dict,
     Generic,
+    Iterator,
     List,
     Mapping,
     Optional,
@@ -36,6 +37,18 @@ A = TypeVar("A", covariant=True, bound="JSON")
 B = TypeVar("B", covariant=True)
 _Domain = Union[Container[A], Callable[[A], bool]]
 Domain = Evaluatable[_Domain]
+
+
+def _templated_strings(value: JSON) -> Iterator[str]:
+    """Yield every string in a (possibly nested) option value, as resolve() visits them."""
+    if isinstance(value, str):
+        yield value
+    elif isinstance(value, Mapping):
+        for item in value.values():
+            yield from _templated_strings(item)
+    elif isinstance(value, list):
+        for item in value:
+            yield from _templated_strings(item)
 
 
 class Option(Evaluatable[A]):
@@ -191,10 +204,9 @@ class Option(Evaluatable[A]):
         """
         if dotted_key_exists(self.key, options):
             value = get_dotted_key(self.key, options)
-            if isinstance(value, str):
-                return {self.key} | Template(value).keys(options)
-            else:
-                return {self.key}
+            return {self.key}.union(
+                *(Template(text).keys(options) for text in _templated_strings(value))
+            )
         elif self.default is not MISSING:
             return self.default.keys(options)
         else:
@@ -205,10 +217,12 @@ class Option(Evaluatable[A]):
         options = options or {}
         if dotted_key_exists(self.key, options):
             value = get_dotted_key(self.key, options)
-            if isinstance(value, str):
-                return {self.key} | Template(value).explain(options)
-            else:
-                return {self.key}
+            return {self.key}.union(
+                *(
+                    Template(text).explain(options)
+                    for text in _templated_strings(value)
+                )
+            )
         elif self.default is not MISSING:
             return self.default.explain(options)
         else:
